@@ -18,6 +18,10 @@ chunks, their sizes or the slots.
   first block at or after the slot, for slots not before the first block), `absent_exact_fails`,
   `tip_is_last`.
 
+`read_from_point_total`, `getTip_ne_panic` — on *arbitrary* chunk contents (blocks in any order,
+read errors, undecodable bytes, empty chunks: what C43's corrupted files produce) the directory
+level returns a result or an error, never a panic.
+
 The full fuzzy clause is `FuzzyFull`; it is **false** for the unchanged code at slots before the
 first block (`fuzzy_before_first_fails`, `fuzzy_full_fails_at_witness`): `read_blocks_from_point`
 answers `CannotFindBlock`, and the pinned test `read_blocks_from_point_test` demands exactly that
@@ -390,6 +394,60 @@ theorem absent_exact_fails (all : List (Chunk H)) (db : List (List (Block H))) (
           intro hh hs; exact hn ⟨hs, hh⟩
         simp [this, mapRes]
     · simp [hb]
+
+/-! ## totality on arbitrary chunk contents (read errors and undecodable blocks included) -/
+
+theorem tillLoop_ne_panic (slot : Nat) (hash : Option H) (cur : Block H) (rest : List (Item H)) :
+    tillLoop slot hash cur rest ≠ .panic := by
+  induction rest generalizing cur with
+  | nil =>
+    unfold tillLoop
+    by_cases h : cur.slot < slot
+    · simp only [h, ↓reduceIte]; split <;> simp
+    · simp only [h, ↓reduceIte]; split <;> simp
+  | cons it rest ih =>
+    unfold tillLoop
+    split
+    · cases it with
+      | blk d => exact ih d
+      | readErr => simp
+      | garbage => simp
+    · split <;> simp
+
+theorem iterateTillPoint_ne_panic (items : List (Item H)) (slot : Nat) (hash : Option H) :
+    iterateTillPoint items slot hash ≠ .panic := by
+  unfold iterateTillPoint
+  split
+  · exact tillLoop_ne_panic _ _ _ _
+  · simp
+  · simp
+  · simp
+
+theorem chunkCmp_ne_panic (slot : Nat) (c : Chunk H) : chunkCmp slot c ≠ .panic := by
+  unfold chunkCmp; split <;> simp
+
+/-- Whatever the chunk readers deliver — blocks in any order, read errors, bytes that do not
+    decode, empty chunks — `read_blocks_from_point` returns a result or an error: the binary search
+    stays in bounds and terminates, the peek loop ends. (`read_blocks` and `get_tip` have no
+    failing arithmetic at all.) -/
+theorem read_from_point_total (all : List (Chunk H)) (slot : Nat) (hash : Option H) :
+    readBlocksFromPoint all slot hash ≠ .panic := by
+  unfold readBlocksFromPoint
+  have hb := binary_search_total (stack all) (chunkCmp slot) (chunkCmp_ne_panic slot)
+  simp only
+  cases hs : chunkBinarySearch (stack all) (chunkCmp slot) with
+  | panic => exact absurd hs hb
+  | err e => simp
+  | ok r =>
+    cases r with
+    | none => simp
+    | some idx => simp only; exact iterateTillPoint_ne_panic _ _ _
+
+theorem getTip_ne_panic (all : List (Chunk H)) : getTip all ≠ .panic := by
+  unfold getTip
+  split
+  · simp
+  · split <;> simp
 
 /-! ## the fuzzy clause at full strength, and where the code departs from it -/
 
